@@ -148,6 +148,13 @@ def unparseRemainingTokensOld (t : Tokenizer) : R Str := do
 
 end Tokenizer
 
+/-- the class invariant every constructor establishes and every method keeps: the cursor is within
+the token list, there is a split for every token but the last, the token count is a `size_t` -/
+structure Tokenizer.WF (t : Tokenizer) : Prop where
+  pos_le : t.pos ≤ t.tokens.length
+  splits : t.tokens.length ≤ t.splits.length + 1
+  size : t.tokens.length < SZ
+
 /-! ## NestedStringTokenizer -/
 
 /-- `blocks += (int)count(token, open) - (int)count(token, end)` (:32): UB on `int` overflow -/
